@@ -5,6 +5,7 @@ import (
 	"fmt"
 	"math/rand"
 	"os"
+	"strconv"
 	"strings"
 
 	"pegsim/sim"
@@ -193,7 +194,15 @@ func (checkC02) Run(env *Env, sc *Scenario) (*Violation, error) {
 		var queue []pendingImg
 		// capture takes the SIGKILL image of this instant if it differs from every
 		// image seen before; full: file-operation level point (hash all files in full)
+		// PEGSIM_C02_MAXIMAGES caps the number of images by count instead of by the
+		// clock (determinism self-test: a wall-clock cut is not repeatable)
+		maxImages, _ := strconv.Atoi(os.Getenv("PEGSIM_C02_MAXIMAGES"))
+		images := 0
 		capture := func(where string, full bool) (string, string, bool) {
+			if maxImages > 0 && images >= maxImages {
+				cut = true
+				return "", "", false
+			}
 			var fp string
 			if full {
 				fp = "F" + fullDirHash(r.Dir)
@@ -211,6 +220,7 @@ func (checkC02) Run(env *Env, sc *Scenario) (*Violation, error) {
 				return "", fp, false
 			}
 			env.Stats.Fault("sigkill_image", 1)
+			images++
 			return img, fp, true
 		}
 		var judge func(img, where string, h uint32)
